@@ -177,7 +177,7 @@ def r02_1(ctx: Ctx):
                 n += 1
                 ok, why = _pair_pattern(ctx, f, c)
                 obs.append(ctx.ob("R02.1", f, c, status=OK if ok else VIOLATION, detail=why if ok else f"{f.short}: {why}"))
-    if n < 10:
+    if n < 8:
         raise AnalysisError(f"only {n} Population constructions found (11 confirmed by hand)")
     return obs
 
@@ -690,8 +690,91 @@ def r02_9(ctx: Ctx):
     return out
 
 
+def r02_10(ctx: Ctx):
+    """R02.10 a population of freshly constructed individuals is evaluated on every path before it is recorded in the history (typestate per list variable)."""
+    from ..cfg import typestate, witness_path
+
+    obs = []
+    n_sinks = 0
+    for ci in ctx.concrete_demes():
+        for f in ctx.prog.functions_in(ci):
+            if f.parent is not None:
+                continue
+            sn = f.self_name() or "self"
+            cfg = ctx.cfg(f)
+            # local lists that end up in the history: appended to self._history directly or through a generation list
+            gen_lists = set()
+            for n in cfg.nodes:
+                if n.kind == "stmt" and is_history_append(n.ast, sn):
+                    for x in ast.walk(n.ast.value.args[0]) if n.ast.value.args else []:
+                        if isinstance(x, ast.Name):
+                            gen_lists.add(x.id)
+
+            def fresh(e):
+                if isinstance(e, ast.Call) and norm(e.func).endswith("create_population"):
+                    return True
+                if isinstance(e, ast.ListComp) and isinstance(e.elt, ast.Call) and norm(e.elt.func).split(".")[-1] == "Individual":
+                    has_fit = len(e.elt.args) > 2 or any(k.arg == "fitness" for k in e.elt.keywords)
+                    return not has_fit
+                return False
+
+            viol = []
+
+            def node_fn(n, st):
+                nonlocal n_sinks
+                if n.ast is None or n.kind in ("entry", "exit"):
+                    return [st]
+                a = n.ast
+                # sinks first (an argument is recorded as it is at this point)
+                for c in ast.walk(a):
+                    if isinstance(c, ast.Call) and isinstance(c.func, ast.Attribute) and c.func.attr in ("append", "extend", "insert") and c.args:
+                        recv_hist = is_self_attr(c.func.value, "_history", sn) or (isinstance(c.func.value, ast.Name) and c.func.value.id in gen_lists)
+                        if recv_hist:
+                            names = {x.id for arg in c.args for x in ast.walk(arg) if isinstance(x, ast.Name)}
+                            if names & (gen_lists | set(st)) or is_self_attr(c.func.value, "_history", sn):
+                                n_sinks += 1
+                            bad = names & set(st)
+                            if bad:
+                                viol.append((n, st, sorted(bad)[0]))
+                # evaluation: evaluate_population(X); `for v in X: v.evaluate()`; any other call that is handed X (a helper may evaluate it)
+                for c in ast.walk(a):
+                    if isinstance(c, ast.Call) and not (isinstance(c.func, ast.Attribute) and c.func.attr in ("append", "extend", "insert")):
+                        for arg in list(c.args) + [k.value for k in c.keywords]:
+                            if isinstance(arg, ast.Name) and arg.id in st:
+                                st = frozenset(st - {arg.id})
+                loop = n.stmt if n.kind == "forhead" else None
+                if isinstance(loop, ast.For) and isinstance(loop.iter, ast.Name) and loop.iter.id in st and isinstance(loop.target, ast.Name):
+                    if any(isinstance(c, ast.Call) and isinstance(c.func, ast.Attribute) and c.func.attr == "evaluate" and isinstance(c.func.value, ast.Name) and c.func.value.id == loop.target.id for b in loop.body for c in ast.walk(b)):
+                        st = frozenset(st - {loop.iter.id})
+                for c in ast.walk(a):
+                    if isinstance(c, (ast.ListComp, ast.GeneratorExp)) and len(c.generators) == 1 and isinstance(c.generators[0].iter, ast.Name) and c.generators[0].iter.id in st and isinstance(c.elt, ast.Call) and isinstance(c.elt.func, ast.Attribute) and c.elt.func.attr == "evaluate":
+                        st = frozenset(st - {c.generators[0].iter.id})
+                if n.kind == "stmt" and isinstance(a, (ast.Assign, ast.AnnAssign)) and getattr(a, "value", None) is not None:
+                    tg = a.targets if isinstance(a, ast.Assign) else [a.target]
+                    for t in tg:
+                        if isinstance(t, ast.Name):
+                            if fresh(a.value) or (isinstance(a.value, ast.Name) and a.value.id in st):
+                                st = frozenset(st | {t.id})
+                            else:
+                                st = frozenset(st - {t.id})
+                return [st]
+
+            typestate(cfg, [frozenset()], node_fn)
+            seen = set()
+            for n, st, nm in viol:
+                if (n.id, nm) in seen:
+                    continue
+                seen.add((n.id, nm))
+                obs.append(ctx.ob("R02.10", f, n.stmt, status=VIOLATION, detail=f"{f.short}: `{nm}` holds freshly constructed individuals that are recorded by `{n.label[:60]}` without having been evaluated on some path: the history exposes individuals with no (NaN / None) fitness", construct=f"{f.short}:{nm}"))
+            if not any(o.subject.endswith(f.short) and o.rule == "R02.10" for o in obs) and any(n.kind == "stmt" and is_history_append(n.ast, sn) for n in cfg.nodes):
+                obs.append(ctx.ob("R02.10", f, f.node, detail="every freshly constructed population is evaluated before it is recorded", construct=f"{f.short}:evaluated-before-recorded"))
+    if n_sinks < 10:
+        raise AnalysisError(f"only {n_sinks} recording sites of populations found")
+    return obs
+
+
 RULES = [
-    ("R02.1", r02_1, 10),
+    ("R02.1", r02_1, 8),
     ("R02.2", r02_2, 2),
     ("R02.3", r02_3, 8),
     ("R02.4", r02_4, 7),
@@ -700,4 +783,5 @@ RULES = [
     ("R02.7", r02_7, 1),
     ("R02.8", r02_8, 14),
     ("R02.9", r02_9, 1),
+    ("R02.10", r02_10, 8),
 ]
